@@ -19,6 +19,8 @@ pub enum Op {
     AddPast { time_ns: u128 },
     Cancel { tag: usize },
     Fetch,
+    /// `peek_time()` at an arbitrary point: must report the smallest pending timestamp and change nothing
+    Peek,
 }
 
 impl Op {
@@ -28,12 +30,16 @@ impl Op {
             Op::AddPast { time_ns } => json!({"add_past": time_ns.to_string()}),
             Op::Cancel { tag } => json!({"cancel": tag}),
             Op::Fetch => json!("fetch"),
+            Op::Peek => json!("peek"),
         }
     }
 
     pub fn from_json(v: &Value) -> Option<Op> {
         if v.as_str() == Some("fetch") {
             return Some(Op::Fetch);
+        }
+        if v.as_str() == Some("peek") {
+            return Some(Op::Peek);
         }
         let o = v.as_object()?;
         if let Some(t) = o.get("add") {
@@ -508,7 +514,41 @@ impl<P: Payload> Runner<P> {
             Op::AddPast { time_ns } => self.add_past(time_ns),
             Op::Cancel { tag } => self.cancel(tag),
             Op::Fetch => self.fetch(),
+            Op::Peek => self.peek(),
         }
+    }
+
+    /// the scan bound (hook H7) for a scan that has to reach `target`
+    fn scan_limit(&self, target: u128) -> u64 {
+        let t = u128::from(self.cfg.t_ns);
+        let t0 = self.window_steps * t;
+        let dist = if target > t0 { (target - t0) / t } else { 0 };
+        (dist + self.cfg.n as u128 + 2).min(u128::from(u64::MAX / 2)) as u64
+    }
+
+    pub fn peek(&mut self) -> Result<(), Failure> {
+        self.ops.push(Op::Peek);
+        let expected = self.model_min();
+        verif::scan_reset(Some(self.scan_limit(expected.unwrap_or(0))));
+        let peek = vcommon::catch(|| self.q.as_mut().unwrap().peek_time());
+        verif::scan_reset(None);
+        self.stats.peeks += 1;
+        match peek {
+            Err(msg) => {
+                let kind = if msg.contains("step limit") { "scan-runaway" } else { "peek-panicked" };
+                return Err(self.fail("C01", kind, format!("peek_time with {} pending events panicked: {msg}", self.pending)));
+            }
+            Ok(p) => {
+                if p.map(|d| d.as_nanos()) != expected {
+                    return Err(self.fail(
+                        "C01",
+                        "peek-time",
+                        format!("peek_time() = {p:?} but the smallest pending timestamp is {expected:?} ns"),
+                    ));
+                }
+            }
+        }
+        self.after_op(false)
     }
 
     fn dur(ns: u128) -> Duration {
@@ -521,10 +561,16 @@ impl<P: Payload> Runner<P> {
         let tag = self.times.len();
         let id = tag as u64;
         let value = P::make(id);
+        verif::list_reset(Some(self.pending as u64 + 8));
         let res = vcommon::catch(|| self.q.as_mut().unwrap().add(Self::dur(time_ns), value));
+        verif::list_reset(None);
         let handle = match res {
             Ok(h) => h,
             Err(msg) => {
+                if msg.contains("step limit") {
+                    std::mem::forget(self.q.take());
+                    return Err(self.fail("C01", "list-cycle", format!("add({time_ns} ns) walked more list nodes than events are pending: {msg}")));
+                }
                 return Err(self.fail("C01", "add-panicked", format!("add({time_ns} ns) at queue time {} ns panicked: {msg}", self.current)));
             }
         };
@@ -582,8 +628,14 @@ impl<P: Payload> Runner<P> {
         if was == Status::Pending && time == self.current && !self.zero.contains(&tag) {
             self.stats.cancel_tie_current_in_bucket += 1;
         }
+        verif::list_reset(Some(self.pending as u64 + 8));
         let res = vcommon::catch(|| self.q.as_mut().unwrap().cancel(handle));
+        verif::list_reset(None);
         if let Err(msg) = res {
+            if msg.contains("step limit") {
+                std::mem::forget(self.q.take());
+                return Err(self.fail("C01", "list-cycle", format!("cancel of event {tag} walked more list nodes than events are pending: {msg}")));
+            }
             return Err(self.fail("C01", "cancel-panicked", format!("cancel of event {tag} panicked: {msg}")));
         }
         match was {
@@ -639,7 +691,7 @@ impl<P: Payload> Runner<P> {
 
         // peek_time must agree and must not change anything
         verif::scan_reset(Some(limit));
-        let peek = vcommon::catch(|| self.q.as_ref().unwrap().peek_time());
+        let peek = vcommon::catch(|| self.q.as_mut().unwrap().peek_time());
         self.stats.peeks += 1;
         let peek = match peek {
             Ok(p) => p,
@@ -775,6 +827,39 @@ impl<P: Payload> Runner<P> {
         self.after_op(false)
     }
 
+    /// After a failure of a sibling property's oracle (e.g. a broken list): the memory obligations of
+    /// C15 can still be decided. Drops the queue (list walks bounded by hook, a crash of the process is
+    /// attributed to this case by the orchestrator) and checks the drop registry.
+    pub fn finish_after_failure(mut self) -> Option<Failure> {
+        let q = self.q.take()?;
+        verif::list_reset(Some(self.times.len() as u64 + 8));
+        let res = vcommon::catch(move || drop(q));
+        verif::list_reset(None);
+        if let Err(msg) = res {
+            return Some(self.fail("C15", "drop-panicked", format!("dropping the queue panicked: {msg}")));
+        }
+        if P::REPORTS_DROP {
+            for tag in 0..self.status.len() {
+                let c = payload::drop_count(tag as u64);
+                if c != 1 {
+                    return Some(self.fail(
+                        "C15",
+                        "drop-count",
+                        format!("payload of event {tag} ({:?}) was dropped {c} times by the end of the history", self.status[tag]),
+                    ));
+                }
+            }
+        }
+        if self.oracles.shadow {
+            let mut sh = self.shadow.borrow_mut();
+            if let Some((kind, detail)) = sh.error.take() {
+                drop(sh);
+                return Some(self.fail("C15", kind, detail));
+            }
+        }
+        None
+    }
+
     /// Drops the queue (with whatever is pending) and performs the final checks.
     pub fn finish(mut self) -> Result<Stats, Failure> {
         self.walk()?;
@@ -786,7 +871,9 @@ impl<P: Payload> Runner<P> {
         // unused handles are plain data
         self.handles.clear();
         let q = self.q.take().unwrap();
+        verif::list_reset(Some(self.pending as u64 + 8));
         let res = vcommon::catch(move || drop(q));
+        verif::list_reset(None);
         if let Err(msg) = res {
             return Err(self.fail("C15", "drop-panicked", format!("dropping the queue panicked: {msg}")));
         }
@@ -869,5 +956,6 @@ impl<P: Payload> Drop for Runner<P> {
             verif::set_alloc_observer(prev);
         }
         verif::scan_reset(None);
+        verif::list_reset(None);
     }
 }
